@@ -149,7 +149,7 @@ Proof.
   all: apply nd_bind; [apply nd_index_of_cur|]; intros j _; nd_case.
 Qed.
 
-Lemma nd_run_gens nonstr secret gens : forall m, nd (run_gens nonstr secret gens m).
+Lemma nd_run_gens nonstr go secret gens : forall m, nd (run_gens nonstr go secret gens m).
 Proof.
   induction gens as [|g t IH]; intros m; cbn [run_gens]; [discriminate|].
   apply nd_bind; [apply nd_gen_resource|]. intros r _.
